@@ -692,7 +692,12 @@ impl Run<'_> {
     fn decode_and_compare(&mut self, wire: &[u8], expected: &Option<Vec<u8>>, plain: Option<&[u8]>, scheduled: bool, stats: &mut Stats, log: &mut LogHash) {
         let plan = self.plan;
         let (m1, m2) = (self.m1, self.m2);
-        let mut dec = Dec::new(self.public, OwningIovec::new(), m1, m2);
+        // The decoder may be given an iovec that already holds something:
+        // decoded bytes are appended after it.
+        let dec_prefix: &'static [u8] = pool_slice(4242, if scheduled { plan.knob("dec_prefix_len") } else { 0 });
+        let mut start = OwningIovec::new();
+        start.push_copy(dec_prefix);
+        let mut dec = Dec::new(self.public, start, m1, m2);
         let mut spare: Option<ByteArena> = None;
         let mut out: Vec<u8> = Vec::new();
         let mut pos = 0usize;
@@ -842,6 +847,14 @@ impl Run<'_> {
                 Err(_) => false,
             }
         };
+        if accepted {
+            // What was in the iovec before must come out first, untouched.
+            if out.len() >= dec_prefix.len() && &out[..dec_prefix.len()] == dec_prefix {
+                out.drain(..dec_prefix.len());
+            } else {
+                vs.push(V { prop: "C09", inv: "C09.prefix_lost", detail: "the decoder's pre-existing iovec contents are not at the head of its output".into(), at: usize::MAX });
+            }
+        }
         log.u64(accepted as u64);
         if accepted {
             log.bytes(&out);
@@ -994,6 +1007,9 @@ fn gen_short(rng: &mut Rng, ask: Ask, seed: u64, index: u64) -> Plan {
     if rng.chance(1, 6) {
         knobs.insert("prefix_len".into(), rng.range(1, if tiny { 6 } else { 300 }));
         knobs.insert("prefix_copy".into(), rng.below(2));
+    }
+    if rng.chance(1, 8) {
+        knobs.insert("dec_prefix_len".into(), rng.range(1, if tiny { 6 } else { 300 }));
     }
     let decoder_focus = ask.prop == "C07" && rng.chance(1, 2);
     if decoder_focus || rng.chance(1, 10) {
